@@ -651,7 +651,7 @@ def r7(ctx, rule="R7", sites=ROW_CLASS_SITES):
         elif var == "<rows whose treatments are kept>":
             # np.unique(<ids>[ROWS] ...): the rows whose treatment ids form the kept set
             sub = []
-            for c in calls(f.node, name="np.unique"):
+            for c in [c for c in calls(f.node) if call_name(c) in ("np.unique", "np.setdiff1d", "np.union1d", "set")]:
                 for x in ast.walk(c):
                     if isinstance(x, ast.Subscript) and U(x.value) == ids and not isinstance(x.slice, (ast.Tuple, ast.Slice)):
                         sub.append(x)
